@@ -7,14 +7,17 @@
           C,<now>[,<order>]     P,<mmsi>     A,<c|u|d>,<cb>     D,<c|u|d>,<cb>
           <order> = '+'-joined MMSIs ('_' = none): the iteration order of the set `to_be_deleted` of this operation's
                     cleanup() -- the MMSIs named come first, in this order (Model/Tracker.v trk_iter_by_hint)
+          T,<ttl|N>  (tracker.ttl_in_seconds = ttl)     M  (tracker.stream_is_ordered = False)
+          I,<now>,<mmsi>,<ts|N>,<attrs>   (tracker.insert_or_update(mmsi, msg_to_track(decoded, ts)): no ordering check, no cleanup)
           L,<n>  (query n_latest_tracks)     G,<mmsi>  (query get_track)
      reply: one item per op joined by '|':
-          op:     E=<exn|->;C=<calls>;D=<deliveries>;R=<returned track|N>;O=<oldest|N>;T=<tracks>
+          op:     E=<exn|->;C=<calls>;D=<deliveries>;R=<returned track|N>;O=<oldest|N>;K=<ttl|N>/<ordered 0|1>;T=<tracks>
           L:      L=<tracks>          G:  G=<track|N>
      The model run is Model/Tracker.v trkc_step (callbacks may raise); without B= and <order> it is the run of trk_step.
      track = mmsi/lu/attrs ('.'-joined, 'n' = None); calls = ','-joined ev~track; deliveries = ','-joined cb~ev~track
    trk_spec <ordered> <nattrs> <mmsis ','-joined> <sop>...      (C12: the log specification, expiry given)
-     sop: U,<now>,<mmsi>,<ts|N>,<attrs>,<expired '+'-joined|_>   C,<now>,<expired>   P,<mmsi>   O
+     sop: U,<now>,<mmsi>,<ts|N>,<attrs>,<expired '+'-joined|_>   C,<now>,<expired>   P,<mmsi>   O   T,<ttl|N>   M
+          I,<now>,<mmsi>,<ts|N>,<attrs>
      reply per step: R=<rejected 0|1>;<mmsi>=<lu/attrs|N>,...
    trk_spec_exact <ordered> <ttl> <nattrs> <mmsis> <sop without expired>...   (C12 + C13: expiry computed by the spec)
    trk_ttl <T> <now> <remaining '+'-joined|_> <removed|_>         -> 0|1
@@ -64,6 +67,10 @@ let item_of (s : ostring) : item =
   | ["P"; mmsi] -> Op (OpPop (z_of_string mmsi), [])
   | ["A"; ev; cb] -> Op (OpAttach (ev_of ev, z_of_string cb), [])
   | ["D"; ev; cb] -> Op (OpDetach (ev_of ev, z_of_string cb), [])
+  | ["I"; now; mmsi; ts; attrs] ->
+    Op (OpInsertOrUpdate (z_of_string now, { m_mmsi = z_of_string mmsi; m_attrs = List.map mattr_of (split '.' attrs) }, optz ts), [])
+  | ["T"; ttl] -> Op (OpSetTtl (optz ttl), [])
+  | ["M"] -> Op (OpUnordered, [])
   | ["L"; n] -> QLatest (z_of_string n)
   | ["G"; mmsi] -> QGet (z_of_string mmsi)
   | _ -> failwith ("bad op " ^ s)
@@ -90,6 +97,7 @@ let () = register "trk_run" (function
                    String.concat "," (List.map (fun ((cb, e), tr) -> string_of_z cb ^ "~" ^ str_ev e ^ "~" ^ str_track tr) dl))
         ^ ";R=" ^ (match res.rc_ret with None -> "N" | Some tr -> str_track tr)
         ^ ";O=" ^ str_optz res.rc_state.t_oldest
+        ^ ";K=" ^ (match res.rc_state.t_ttl with None -> "N" | Some t -> string_of_z t) ^ "/" ^ str_bool res.rc_state.t_ordered
         ^ ";T=" ^ str_tracks (trk_tracks res.rc_state)
       | QLatest n -> "L=" ^ str_tracks (trk_n_latest_tracks !st n)
       | QGet m -> "G=" ^ (match trk_get_track !st m with None -> "N" | Some tr -> str_track tr)) ops in
@@ -109,6 +117,10 @@ let sop_of (exact : bool) (s : ostring) : ostring sp_op * z list =
      (match rest with [e] when not exact -> zlist '+' e | [] when exact -> [] | _ -> failwith ("bad sop " ^ s)))
   | ["P"; mmsi] -> (SpPop (z_of_string mmsi), [])
   | ["O"] -> (SpOther, [])
+  | ["I"; now; mmsi; ts; attrs] ->
+    (SpInsert (z_of_string now, z_of_string mmsi, List.map sattr_of (split '.' attrs), optz ts), [])
+  | ["T"; ttl] -> (SpSetTtl (optz ttl), [])
+  | ["M"] -> (SpUnordered, [])
   | _ -> failwith ("bad sop " ^ s)
 
 let str_sptrack = function
@@ -121,29 +133,33 @@ let spec_reply ordered na mmsis log rejected =
 
 let is_rejected ordered log = function
   | SpUpdate (now, m, _, ts) -> sp_rejected ordered m (match ts with Some t -> t | None -> now) log
+  | SpInsert (now, m, _, ts) -> sp_older (match ts with Some t -> t | None -> now) m log
   | _ -> false
 
 let () = register "trk_spec" (function
   | ordered :: nattrs :: mmsis :: sops ->
-    let ordered = (ordered = "1") and na = nat_of_int (int_of_string nattrs) and mmsis = zlist ',' mmsis in
+    let ordered = ref (ordered = "1") and na = nat_of_int (int_of_string nattrs) and mmsis = zlist ',' mmsis in
     let log = ref [] in
     String.concat "|" (List.map (fun s ->
       let (op, expired) = sop_of false s in
-      let rej = is_rejected ordered !log op in
-      log := sp_step ordered !log op expired;
-      spec_reply ordered na mmsis !log rej) sops)
+      let rej = is_rejected !ordered !log op in
+      log := sp_step !ordered !log op expired;
+      ordered := sp_mode !ordered op;
+      spec_reply !ordered na mmsis !log rej) sops)
   | _ -> "ERROR bad arguments for trk_spec")
 
 let () = register "trk_spec_exact" (function
   | ordered :: ttl :: nattrs :: mmsis :: sops ->
-    let ordered = (ordered = "1") and na = nat_of_int (int_of_string nattrs) and mmsis = zlist ',' mmsis in
-    let ttl = optz ttl in
+    let ordered = ref (ordered = "1") and na = nat_of_int (int_of_string nattrs) and mmsis = zlist ',' mmsis in
+    let ttl = ref (optz ttl) in
     let log = ref [] in
     String.concat "|" (List.map (fun s ->
       let (op, _) = sop_of true s in
-      let rej = is_rejected ordered !log op in
-      log := sp_step_exact ttl ordered !log op;
-      spec_reply ordered na mmsis !log rej) sops)
+      let rej = is_rejected !ordered !log op in
+      log := sp_step_exact !ttl !ordered !log op;
+      ordered := sp_mode !ordered op;
+      ttl := sp_ttl_after !ttl op;
+      spec_reply !ordered na mmsis !log rej) sops)
   | _ -> "ERROR bad arguments for trk_spec_exact")
 
 let () = register "trk_ttl" (function
